@@ -51,6 +51,16 @@ class Models17(CommonModels):
             return [(path, VBool(z3.Bool('dir_exists')))]
         if obj in (os.path.abspath, os.path.realpath, os.path.expanduser):
             return [(path, VStr(z3.Function('abspath', z3.StringSort(), z3.StringSort())(args[0].t)))]
+        import tempfile
+        import functools
+        import twisted.internet.defer as _defer
+        if obj is tempfile.mkdtemp:
+            self.glog_add(path, 'started', ('mkdtemp',))
+            return [(path, VStr(z3.String('tmpdir')))]
+        if obj is functools.partial:
+            return [(path, VOpaque('partial', ex.fresh_int(path, 'partial')))]
+        if obj is _defer.maybeDeferred:
+            return [(path, VOpaque('config_d', 5050))]
         import weakref
         if obj is weakref.ref:
             return [(path, VOpaque('weakref', 5200))]
@@ -60,6 +70,9 @@ class Models17(CommonModels):
         if f.qualname in CREATE_FUNCS:
             self.glog_add(path, 'creates', (f.qualname, tuple(args), dict(kw), len(self.glog(path, 'awaited'))))
             return [(path, VOpaque('Deferred', 5300))]
+        if f.qualname == '_AuthCommon.__init__':
+            # client list handling of the Auth* classes is C14's; here only the kind of auth object matters
+            return [(path, NONE)]
         if f.qualname.endswith('_descriptor_progress_update'):
             return [(path, NONE)]
         if f.qualname == '_maybe_unique_host':
@@ -87,6 +100,9 @@ class Models17(CommonModels):
         if isinstance(recv, VConc) and getattr(recv.obj, '__name__', '') == 'IAuthenticatedOnionClients' and name == 'providedBy':
             return [(path, VBool(False))]     # only affects log lines (client names)
         if isinstance(recv, VOpaque):
+            if recv.kind == 'reactor' and name == 'addSystemEventTrigger':
+                self.glog_add(path, 'triggers', tuple(args))
+                return [(path, VOpaque('trigger', 1))]
             if recv.kind == 'local_endpoint' and name == 'listen':
                 self.glog_add(path, 'binds', args[0])
                 return [(path, VOpaque('Deferred', 5500))]
@@ -244,8 +260,69 @@ def unit_listening_port():
     return run
 
 
+def unit_constructor():
+    """TCPHiddenServiceEndpoint.__init__: unsupported option combinations are refused before anything is started"""
+    def run(ctx):
+        ctx.fn(MODULE, 'TCPHiddenServiceEndpoint.__init__')
+        import txtorcon.endpoints as ep
+        import txtorcon.onion as on
+        ex = ctx.ex
+        path = ctx.new_path()
+        inst = ex.new_inst(path, ep.TCPHiddenServiceEndpoint)
+        eph_none, eph_val = z3.Bool('ephemeral_is_none'), z3.Bool('ephemeral_value')
+        ephemeral = VUnion([(eph_none, NONE), (z3.Not(eph_none), VBool(eph_val))])
+        has_dir, has_key = z3.Bool('has_hidden_service_dir'), z3.Bool('has_private_key')
+        hsdir = VUnion([(has_dir, VStr(z3.String('hsdir'))), (z3.Not(has_dir), NONE)])
+        key = VUnion([(has_key, VStr(z3.String('key'))), (z3.Not(has_key), NONE)])
+        a_stealth, a_basic = z3.Bool('auth_is_stealth'), z3.Bool('auth_is_basic')
+        path.assume(z3.Not(z3.And(a_stealth, a_basic)))
+        stealth_obj = ex.new_inst(path, on.AuthStealth)
+        basic_obj = ex.new_inst(path, on.AuthBasic)
+        auth = VUnion([(a_stealth, stealth_obj), (a_basic, basic_obj), (z3.Not(z3.Or(a_stealth, a_basic)), NONE)])
+        legacy = z3.Bool('has_stealth_auth_kwarg')
+        clients = ex.new_list(path, [VStr('alice')])
+        stealth_auth = VUnion([(legacy, clients), (z3.Not(legacy), NONE)])
+        single = z3.Bool('single_hop')
+        for b in (eph_none, eph_val, has_dir, has_key, a_stealth, a_basic, legacy, single):
+            ctx.input(str(b), VBool(b))
+        eff_eph = z3.If(eph_none, z3.Not(has_dir), eph_val)
+        has_auth = z3.Or(a_stealth, a_basic)
+        stealth = z3.Or(legacy, a_stealth)
+        refuse = zor(z3.And(legacy, has_auth), z3.And(eff_eph, stealth), z3.And(eff_eph, has_dir), z3.And(has_key, z3.Not(eff_eph)),
+                     z3.And(single, z3.Not(eff_eph)))
+        ctx.cover('pre_refused', path, refuse)
+        ctx.cover('pre_accepted', path, z3.Not(refuse))
+        ctx.cover('pre_legacy_stealth_on_ephemeral', path, z3.And(legacy, eff_eph, z3.Not(has_auth)))
+        g = ex.getattr_v(path, inst, '__init__')
+        kw = {'ephemeral': ephemeral, 'hidden_service_dir': hsdir, 'private_key': key, 'auth': auth, 'stealth_auth': stealth_auth,
+              'single_hop': VBool(single), 'local_port': NONE}
+        for p, r in ex.call(g[0][0], g[0][1], [VOpaque('reactor', 1), VOpaque('config', 2), VInt(z3.Int('public_port'))], kw):
+            started = ctx.models.glog(p, 'started')
+            if isinstance(r, Raise):
+                isval = isinstance(r.exc, VInst) and r.exc.cls is ValueError
+                ctx.oblige('post.refusal_is_a_value_error_for_an_unsupported_combination_nothing_started', p,
+                           zand(refuse, B(isval and not started)),
+                           clause='unsupported option combinations are refused before anything is started')
+                continue
+            ctx.oblige('post.accepted_only_when_the_combination_is_supported', p, z3.Not(refuse),
+                       clause='unsupported option combinations are refused before anything is started')
+            def holds(v, pred):
+                if isinstance(v, VUnion):
+                    return zor(*[z3.And(g_, holds(a_, pred)) for g_, a_ in v.alts])
+                r_ = pred(v)
+                return r_ if z3.is_expr(r_) else B(r_)
+            au = p.heap.get(('f', inst.oid, 'auth'))
+            ok_auth = z3.If(legacy, holds(au, lambda v: isinstance(v, VInst) and v.cls is on.AuthStealth and v is not stealth_obj),
+                            z3.If(a_stealth, holds(au, lambda v: v is stealth_obj),
+                                  z3.If(a_basic, holds(au, lambda v: v is basic_obj), holds(au, lambda v: isinstance(v, VNone)))))
+            ctx.oblige('post.effective_auth_recorded', p, ok_auth)
+            ephv = p.heap.get(('f', inst.oid, 'ephemeral'))
+            ctx.oblige('post.effective_kind_recorded', p, holds(ephv, lambda v: (v.t == eff_eph) if isinstance(v, VBool) else False))
+    return run
+
+
 def units():
-    out = []
+    out = [('C17/TCPHiddenServiceEndpoint.__init__', unit_constructor())]
     for eph in (True, False):
         for auth in (False, True):
             out.append(('C17/listen/%s/%s' % ('ephemeral' if eph else 'filesystem', 'auth' if auth else 'noauth'), unit_listen(eph, auth)))
